@@ -9,7 +9,7 @@ from ..loader import AnalysisError
 from ..report import rule
 from ..resolve import Resolver
 from ..terms import App, Attr, Comp, Idx, Lst, PW, Range, Sym
-from .common import Flow, calls_to, unparse
+from .common import Flow, calls_to, ctor_args, unparse
 
 BYCL = "main_loop._compute_log_likelihood_by_cluster"
 
@@ -22,7 +22,7 @@ def per_cluster_helper(ana):
     ml = ana.func("main_loop.fit_stacked_data")
     ctor = calls_to(ana, ml, "fast_ticc.containers.results.SingleDataSeriesResult")
     if len(ctor) == 1:
-        kw = {k.arg: k.value for k in ctor[0].node.keywords}
+        kw = ctor_args(ana, ctor[0])
         if "all_log_likelihood" in kw:
             fl = Flow(ana, ml)
             dep = fl.closure(kw["all_log_likelihood"])
@@ -137,7 +137,7 @@ def r1(ctx):
     _h = per_cluster_helper(ana)
     bm = ana.builder(ml, no_inline=lambda f: ana.known(f) or f is _h)
     ctor = calls_to(ana, ml, "fast_ticc.containers.results.SingleDataSeriesResult")
-    kw = {k.arg: k.value for k in ctor[0].node.keywords}
+    kw = ctor_args(ana, ctor[0])
     t = bm.term(kw["all_log_likelihood"])
     src = App(fi.qualname, (Sym(ml.params[1]),), {})
     ok = isinstance(t, App) and t.fn == "builtins.list" and isinstance(t.args[0], App) and t.args[0].fn == "itertools.chain" \
@@ -157,7 +157,7 @@ def r2(ctx):
     ctor = calls_to(ana, ml, "fast_ticc.containers.results.SingleDataSeriesResult")
     if len(ctor) != 1:
         raise AnalysisError("SingleDataSeriesResult constructor call not found exactly once")
-    kw = {k.arg: k.value for k in ctor[0].node.keywords}
+    kw = ctor_args(ana, ctor[0])
     allt = bm.term(kw["all_log_likelihood"])
     for f, fn in (("overall_log_likelihood", "numpy.sum"), ("overall_log_likelihood_mean", "numpy.mean"), ("overall_log_likelihood_median", "numpy.median")):
         t = bm.term(kw[f])
@@ -178,7 +178,9 @@ def r2(ctx):
             want = PW([(nonempty, App(fn, (x,))), (tm.negate(nonempty), tm.ZERO)])
             alt_g = tm.compare("!=", tm.length(x), 0)
             want2 = PW([(alt_g, App(fn, (x,))), (tm.negate(alt_g), tm.ZERO)])
-            ok = inner.elt in (want, want2)
+            # the per-cluster entries are Python lists (C05.R6: created as [] and only appended to), whose truth value is len(x) > 0
+            want3 = PW([(x, App(fn, (x,))), (tm.negate(x), tm.ZERO)])
+            ok = inner.elt in (want, want2, want3)
         ctx.check(ok, ml, f"`{f}`[k] = {fn.split('.')[1]} of cluster k's own list, 0 for an empty cluster", role=f"aggregate:{f}",
                   expected=f"[{fn}(x) if len(x) > 0 else 0 for x in per_cluster]", found=str(inner)[:200])
         # the weaker fact C03 needs: whatever is averaged, it is never an empty list (numpy.mean([]) is NaN)
@@ -190,7 +192,7 @@ def r2(ctx):
                 if isinstance(a, App) and a.fn in ("numpy.mean", "numpy.median", "numpy.average", "numpy.nanmean", "numpy.nanmedian", "statistics.mean",
                                                    "statistics.median") and a.args:
                     n = tm.length(a.args[0])
-                    if n is None or not ({tm.compare(">", n, 0).key, tm.compare("!=", n, 0).key} & gparts):
+                    if n is None or not ({tm.compare(">", n, 0).key, tm.compare("!=", n, 0).key, a.args[0].key} & gparts):
                         bare.append(str(a)[:80])
         ctx.check(not bare, ml, f"`{f}`: no average is taken over a possibly empty list", role=f"empty-guard:{f}",
                   expected="guarded by len(x) > 0", found="; ".join(bare))
@@ -223,7 +225,7 @@ def r4(ctx):
         raise AnalysisError("MultipleDataSeriesResult constructor call not found exactly once")
     master = fi.params[0]
     cls = ana.prog.cls("containers.results.MultipleDataSeriesResult")
-    kws = {k.arg: k.value for k in ctor[0].node.keywords}
+    kws = ctor_args(ana, ctor[0])
     b = ana.builder(fi, no_inline=ana.known)
     for f in cls.fields:
         if f == "point_labels":
